@@ -28,7 +28,7 @@ GAP_NAME = {"": "glued", " ": "space", "   ": "3-spaces", "\n": "newline", "\n  
             " // é😀\n": "comment"}
 
 # string-literal content alphabet (raw text between the quotes; newlines are REAL newlines inside the literal)
-STR_VARIANTS = [("multi-line", "a\n  x"), ("brace-line", "a\n} b"), ("slashes", "a // b")]
+STR_VARIANTS = [("multi-line", "a\n  x"), ("brace-line", "a\n} b"), ("slashes", "a // b"), ("blank-lines", "a\n\n\n  x")]
 NONASCII = "é😀"
 
 
@@ -37,13 +37,21 @@ def h(s):
 
 
 class Base:
-    __slots__ = ("label", "kind", "pieces", "classes", "gaps", "ast", "comments", "variant", "extra")
+    __slots__ = ("label", "kind", "pieces", "classes", "gaps", "ast", "comments", "variant", "extra", "_canon")
 
     def __init__(self, label, kind, pieces, classes, gaps, variant="plain"):
         self.label, self.kind, self.pieces, self.classes, self.gaps, self.variant = label, kind, pieces, classes, gaps, variant
         self.ast = None          # blanked Debug tree of the canonical text (filled by prepare/derive)
         self.comments = None
         self.extra = None
+        self._canon = None
+
+    @property
+    def canon(self):
+        """The canonical text (no deviation)."""
+        if self._canon is None:
+            self._canon = self.render()
+        return self._canon
 
     def render(self, devs=()):
         """devs: iterable of (gap_index, separator)."""
@@ -213,25 +221,54 @@ def dev_name(base, devs):
     return "+".join(GAP_NAME.get(s, repr(s)) for _, s in devs) or "canonical"
 
 
-def explore(ctx, bases, k, want, alphabet=GAPS, chunk=40000, include_canonical=True):
-    """Run one front job (want + ast_blank) on every layout with <= k deviating gaps of every base.
-    Yields (base, devs, text, result, status) with status in same | tree-changed | parse-error | failed.
+def tree_pairs_differ(ctx, pairs, per_job=256):
+    """For (a, b) source pairs: {index: (errors_a, errors_b)} of the pairs that do NOT parse to structurally equal trees
+    (`ast_eq` job: the parser's own structural equality, which ignores positions, ids and comma positions; compared in Rust,
+    ~10x cheaper than shipping Debug dumps)."""
+    jobs = [{"op": "ast_eq", "pairs": [list(p) for p in pairs[j:j + per_job]]} for j in range(0, len(pairs), per_job)]
+    out = {}
+    for j, r in zip(range(0, len(pairs), per_job), ctx.pool.map(jobs, batch=1, timeout=120)):
+        if "bad" not in r:
+            # a pair that kills the job: attribute singly
+            for i, p in enumerate(pairs[j:j + per_job]):
+                r1 = ctx.pool.one({"op": "ast_eq", "pairs": [list(p)]}, timeout=60)
+                if "bad" not in r1:
+                    out[j + i] = ("failed", str(r1)[:200])
+                elif r1["bad"]:
+                    out[j + i] = (r1["bad"][0]["errors_a"], r1["bad"][0]["errors_b"])
+            continue
+        for bad in r["bad"]:
+            out[j + bad["i"]] = (bad["errors_a"], bad["errors_b"])
+    return out
+
+
+def explore(ctx, bases, k, want, alphabet=GAPS, chunk=40000, include_canonical=True, classify=True):
+    """Run one front job (want) on every layout with <= k deviating gaps of every base.
+    Yields (base, devs, text, result, status) with status in same | tree-changed | parse-error | failed
+    (classify=False: same is reported as "unclassified": no tree comparison is made).
     The canonical layout itself is yielded first for every base (devs == ())."""
-    want = list(dict.fromkeys(list(want) + ["ast_blank"]))
+    want = [w for w in dict.fromkeys(want) if w != "ast_blank"]
     buf = []
 
     def flush():
         res = ctx.pool.map([{"op": "front", "src": t, "want": want} for _, _, t in buf], batch=64, timeout=60)
+        st = []
         for (b, d, t), r in zip(buf, res):
             if "parse_errors" not in r:
-                st = "failed"
+                st.append("failed")
             elif r["parse_errors"]:
-                st = "parse-error"
-            elif r.get("ast_blank") != b.ast:
-                st = "tree-changed"
+                st.append("parse-error")
             else:
-                st = "same"
-            yield b, d, t, r, st
+                st.append("same" if classify else "unclassified")
+        if classify:
+            idx = [i for i, ((b, d, t), s) in enumerate(zip(buf, st)) if s == "same" and d]
+            diff = tree_pairs_differ(ctx, [(buf[i][0].canon, buf[i][2]) for i in idx])
+            for j, (ea, eb) in diff.items():
+                if ea == "failed" or ea:
+                    raise Machinery(f"ast_eq failed on the canonical text {buf[idx[j]][0].canon!r}: {ea} {eb}")
+                st[idx[j]] = "tree-changed"
+        for (b, d, t), r, s in zip(buf, res, st):
+            yield b, d, t, r, s
 
     for b in bases:
         if include_canonical:
